@@ -19,9 +19,9 @@ Print Assumptions C08_roundtrip.
 (** crash at ANY IO call of the save, with ANY prefix of un-synced bytes surviving: the checkpoint's
     final name is absent / still holds the complete old content, or holds the complete new content *)
 Theorem C08_crash_safe : forall chunks f0 old,
-  f0 0 = old -> (match old with Some (_, p) => p = [] | None => True end) ->
+  f0 0 = old -> (match old with Some (_, p, _) => p = [] | None => True end) ->
   forall p q c, Gen.Checkpoint.save_io chunks = p ++ q -> after_crash (exec p f0) 0 c ->
-  (c = option_map fst old) \/ (q = [] /\ exists d, exec p f0 0 = Some (d, []) /\ c = Some d).
+  (c = option_map (fun x => fst (fst x)) old) \/ (q = [] /\ exists d, exec p f0 0 = Some (d, [], []) /\ c = Some d).
 Proof.
   intros chunks f0 old Hold Hclean p q c Hpq Hc.
   eapply (atomic_save_crash_safe 1 0 (Gen.Checkpoint.save_io chunks)); eauto. apply link_save_shape.
@@ -30,17 +30,17 @@ Print Assumptions C08_crash_safe.
 
 (** the complete save leaves exactly the written bytes, all durable *)
 Theorem C08_complete_save : forall chunks f0,
-  exec (Gen.Checkpoint.save_io chunks) f0 0 = Some (concat chunks, []).
+  exec (Gen.Checkpoint.save_io chunks) f0 0 = Some (concat chunks, [], []).
 Proof.
   intros chunks f0. rewrite link_save_is_atomic. unfold atomic_save.
   unfold exec. rewrite !fold_left_app. cbn [fold_left exec1].
-  set (f1 := upd f0 1 (Some ([], []))).
-  assert (G : forall cs f acc, f 1 = Some ([], acc) ->
-             fold_left exec1 (map (Write 1) cs) f 1 = Some ([], acc ++ concat cs)).
+  set (f1 := upd f0 1 (Some ([], [], []))).
+  assert (G : forall cs f acc, f 1 = Some ([], [], acc) ->
+             fold_left exec1 (map (Write 1) cs) f 1 = Some ([], [], acc ++ concat cs)).
   { induction cs as [|c cs IH]; intros f acc Hf; cbn [map fold_left concat]; [now rewrite app_nil_r|].
     rewrite (IH _ (acc ++ c)); [now rewrite app_assoc|]. cbn [exec1]. rewrite Hf. apply upd_same. }
   specialize (G chunks f1 [] (upd_same _ _ _)). cbn [app] in G.
-  rewrite G. rewrite upd_same. cbn [app]. rewrite upd_other by discriminate. now rewrite upd_same.
+  rewrite G. rewrite !upd_same. cbn [app]. rewrite upd_other by discriminate. now rewrite upd_same.
 Qed.
 Print Assumptions C08_complete_save.
 
@@ -60,5 +60,10 @@ Print Assumptions C08_cadence.
 (** the pinned tree's direct write is refuted by a concrete crash *)
 Example C08_direct_write_refuted :
   exists p q c, direct_save 0 [[1;2;3]] = p ++ q /\
-    after_crash (exec p (fun n => if Nat.eqb n 0 then Some ([7;7], []) else None)) 0 c /\ c = Some [].
+    after_crash (exec p (fun n => if Nat.eqb n 0 then Some ([7;7], [], []) else None)) 0 c /\ c = Some [].
 Proof. exact direct_save_refuted. Qed.
+(** fsync before flush: the shape checker rejects it and a power loss after the rename leaves an empty file *)
+Example C08_fsync_before_flush_refuted :
+  let ops := [Open_trunc 1; Write 1 [1;2;3]; Fsync 1; Flush 1; Close 1; Rename 1 0] in
+  is_atomic_shape 1 0 ops false false false = false /\ after_crash (exec ops (fun _ => None)) 0 (Some []).
+Proof. exact fsync_before_flush_refuted. Qed.
